@@ -27,6 +27,7 @@ import TickitModel.Core.MasterLoop
 import TickitModel.Core.Http
 import TickitModel.Core.Epics
 import TickitModel.Core.StopProtocol
+import TickitModel.Core.MsgFlatRun
 
 open Lean Tickit
 
@@ -530,6 +531,51 @@ def opStopProto (j : Json) : Json :=
       | none => Json.mkObj [("accepted", Json.bool false), ("at", toJson k), ("why", Json.str "action not enabled")]
   go (StopSt.init cfg) acts 0
 
+/-! ### message-level flat simulation (Core/MsgFlatRun): trace acceptor -/
+
+def jMsgRunAct (j : Json) : Option MsgRunAct :=
+  match jarr j with
+  | [k] => match jstr k with
+    | "startSched" => some (.bus .startSched)
+    | "nextTick" => some .nextTick
+    | _ => none
+  | [k, c] => match jstr k with
+    | "startComp" => some (.bus (.startComp (jstr c)))
+    | "deliverIn" => some (.bus (.deliverIn (jstr c)))
+    | "deliverOut" => some (.bus (.deliverOut (jstr c)))
+    | _ => none
+  | _ => none
+
+/-- `{"op":"msgrun","inverse":[..],"t0":..,"table":[[k,c,[[port,val]..],call_at|null]..],"actions":[..]}`: the device
+of component `c` answers its update in tick `k` (0 = initial tick) with the recorded outputs / call_at (a component is
+updated at most once per tick).  Every action must be enabled and must not fail; the reply has the observations and
+tick times of the model's run. -/
+def opMsgRun (j : Json) : Json :=
+  let w := Wiring.fromInverse (jInv (jfield j "inverse"))
+  let t0 := jint (jfield j "t0")
+  let table : List ((Nat × Comp) × DevOut Int) := (jarr (jfield j "table")).filterMap (fun r =>
+    match jarr r with
+    | [k, c, outs, ca] => some ((jnat k, jstr c), ⟨jChanges outs, (jopt ca).map jint⟩)
+    | _ => none)
+  let devs : DevSeq Int := fun k c _ _ =>
+    match table.find? (fun e => e.1 == (k, c)) with
+    | some e => e.2
+    | none => ⟨[], none⟩
+  let acts := (jarr (jfield j "actions")).map jMsgRunAct
+  let rec go (M : MsgRunSt Int) (as : List (Option MsgRunAct)) (k : Nat) : Json :=
+    match as with
+    | [] => Json.mkObj [("accepted", Json.bool true),
+                        ("obs", Json.arr (M.obs.map (fun o => Json.arr #[Json.str o.1, toJson o.2.1, outChanges o.2.2])).toArray),
+                        ("times", toJson M.times.reverse),
+                        ("complete", Json.bool (match M.bus.tk with | some tk => tk.toUpdate.isEmpty | none => false)),
+                        ("wake", outChanges M.bus.wake)]
+    | none :: _ => Json.mkObj [("accepted", Json.bool false), ("at", toJson k), ("why", Json.str "unknown action")]
+    | some a :: rest => match M.step w devs t0 a with
+      | some (.ok M') => go M' rest (k + 1)
+      | some (.error _) => Json.mkObj [("accepted", Json.bool false), ("at", toJson k), ("why", Json.str "the scheduler fails (ticker assertion / KeyError)")]
+      | none => Json.mkObj [("accepted", Json.bool false), ("at", toJson k), ("why", Json.str "action not enabled")]
+  go (MsgRunSt.initial []) acts 0
+
 def handleLine (line : String) : String :=
   match Json.parse line with
   | .error e => (Json.mkObj [("err", "parse:" ++ e)]).compress
@@ -551,6 +597,7 @@ def handleLine (line : String) : String :=
       | "mloop" => opMLoop j
       | "failstop" => opFailStop j
       | "contract" => opContract j
+      | "msgrun" => opMsgRun j
       | "stopproto" => opStopProto j
       | "http" => opHttp j
       | "epics" => opEpics j
